@@ -467,8 +467,9 @@ def tie_fista_step(tree):
     term = tr.env["x_new"]("i", "j")
     return ("Goal forall (UtM UtU V : mat) (r n : nat) (sp rd lr eps : R) (i j : nat), wfm r r UtU -> wfm r n UtM -> wfm r n V -> (i < r)%nat -> (j < n)%nat ->\n"
             f"  Mget (fista_new Rops UtM UtU n true sp rd lr eps V) i j = {term}.\n"
-            "Proof.\n  intros. rewrite (fista_new_entry UtM UtU r n sp rd lr eps) by assumption. cbv zeta. unfold qp_grad, bf, colf.\n"
-            "  repeat match goal with |- context [Rlt_dec ?a ?b] => destruct (Rlt_dec a b) end; lra.\nQed.\n")
+            "Proof.\n  intros. rewrite (fista_new_entry UtM UtU r n sp rd lr eps) by assumption. cbv zeta. unfold qp_grad, bf, colf, fmax. cbn [fleb Rops]. unfold Rleb.\n"
+            # round 8: the projection may be written with where(x < eps, eps, x) or with clip(x, a_min=eps) (= fmax eps x): both decide
+            "  repeat match goal with |- context [Rlt_dec ?a ?b] => destruct (Rlt_dec a b) | |- context [Rle_dec ?a ?b] => destruct (Rle_dec a b) end; lra.\nQed.\n")
 
 
 def tie_fista_loop(tree):
